@@ -5,7 +5,7 @@ from . import rulesview as RV
 from . import emlops
 from .emlops import prefix_inclusion, offenders
 from .ops import KINDS
-from .profiles import (Profile, Violation, check_exp, short, bump, ALL, PROFILES, to_handles)
+from .profiles import (Profile, Violation, check_exp, short, bump, ALL, PROFILES, to_handles, independence)
 from .world import (CH, PA, NS, FI, RG, FIELD_NAMES, F_ID, F_NAME, F_CONTENT, F_TAIL, F_PREFIX, F_ATTRS, F_EXTRAS)
 
 Node = B.Node
@@ -144,31 +144,6 @@ class Persist(Profile):
                     flags.add("restart_with_siblings")
         for fl in sorted(flags):
             bump(P, fl)
-
-
-# ============================================================== independence helper
-def independence(c, prop, pairs, clause):
-    """Edits with operands on one side of a (source, copy) pair must not be
-    visible on the other side."""
-    k = c.op["k"]
-    if not pairs or not KINDS[k].mutating:
-        return None
-    touched = set(x for x in c.R.values() if isinstance(x, int))
-    pairs[:] = [pr for pr in pairs if not (touched & pr[0] and touched & pr[1])]
-    for (oset, cset) in pairs:
-        for side in (oset, cset):
-            if touched & side:
-                for x in touched - side:
-                    side.update(c.pre.subtree(x))
-        for mine, other, who in ((oset, cset, "copy"), (cset, oset, "source")):
-            if touched & mine and not (touched & other):
-                v = check_exp(prop, k, ALL, c.exp, c.pre, c.post, scope=other, exclude_footprint=True)
-                if v:
-                    v.clause = clause
-                    v.sig = "%s:leaks-into-%s:%s" % (k, who, v.detail.get("aspect"))
-                    v.msg = "edit %s on one side changed the %s: %s" % (k, who, v.msg)
-                    return v
-    return None
 
 
 # ============================================================== C16 expand
@@ -328,7 +303,7 @@ class ExpandP(Profile):
                     v = self._same_subtree(c, s, g, p)
                     if v:
                         return v
-                    newpairs.append((set(pre.subtree(s)), set(post.subtree(g))))
+                    newpairs.append([set(pre.subtree(s)), set(post.subtree(g)), frozenset(post.subtree(g)), set()])
         for r in refs:
             if r in post.subtree(root):
                 return Violation("C16", "E1", "expand:references-left", "references node h%d is still in the tree" % r)
@@ -410,7 +385,7 @@ class ExpandP(Profile):
                         break
         elif c.state["pairs"] and KINDS[k].mutating:
             touched = set(x for x in c.R.values() if isinstance(x, int))
-            for (oset, cset) in c.state["pairs"]:
+            for (oset, cset, _b, _d) in c.state["pairs"]:
                 if touched & (oset | cset):
                     bump(P, "edit_after_expand")
                     break
